@@ -75,6 +75,162 @@ def collinear_case(rng, kind, n):
             "xyz": [[x, 0.0, 0.0] for x in xs], "r": rs}
 
 
+TYPE_PATTERNS = ["all-soma", "soma-head", "soma-tips", "one-type", "no-soma", "any"]
+
+
+def type_column(rng, pattern, pids):
+    """a type column for the tree: the property does not mention node types, so every assignment is inside its quantifier"""
+    n = len(pids)
+    neurite = lambda: rng.choice([2, 3, 4, 0, 5, 7])
+    has_kid = set(p for p in pids if p >= 0)
+    if pattern == "all-soma":                      # every point typed as soma (soma contours, multi-point somata)
+        return [1] * n
+    if pattern == "soma-head":                     # the root and the points attached to it
+        return [1] + [1 if pids[i] == 0 else neurite() for i in range(1, n)]
+    if pattern == "soma-tips":
+        return [1] + [1 if i not in has_kid else 3 for i in range(1, n)]
+    if pattern == "one-type":
+        ty = neurite()
+        return [ty] * n
+    if pattern == "no-soma":                       # a neurite fragment
+        return [rng.choice([0, 2, 3, 4])] + [neurite() for _ in range(n - 1)]
+    return [rng.randint(0, 7) for _ in range(n)]
+
+
+def boundary_case(rng, kind, n, share):
+    """collinear tree AT THE BOUNDARY of the admissible spacings: with probability `share` a node repeats the radius of its
+    predecessor and a compartment is exactly as long as the larger of its end radii (share = 1: one radius r throughout, every
+    compartment exactly r long — spheres two nodes apart meet in a single point, the parts do not overlap)"""
+    r0 = rng.randint(2, 24) / 8
+
+    def arm(m):
+        rs, xs = [r0], [0.0]
+        for _ in range(m):
+            rs.append(rs[-1] if rng.random() < share else rng.randint(2, 24) / 8)
+            lo = max(rs[-2], rs[-1])
+            if rng.random() < share:
+                d = lo
+            else:
+                d = math.ceil((rs[-2] + rs[-1] + rng.randint(0, 16) / 8) * 64) / 64
+            xs.append(xs[-1] + d)
+        return xs, rs
+
+    if kind == "chain":
+        xs, rs = arm(n - 1)
+        pids = [-1] + list(range(n - 1))
+    else:
+        m1 = max(1, (n - 1) // 2)
+        m2 = max(1, n - 1 - m1)
+        xa, ra = arm(m1)
+        xb, rb = arm(m2)
+        xs = xa + [-x for x in xb[1:]]
+        rs = ra + rb[1:]
+        pids = [-1] + list(range(m1)) + [0] + list(range(m1 + 1, m1 + m2))
+    return {"class": kind, "n": len(xs), "pids": pids, "types": [1] + [3] * (len(xs) - 1), "xyz": [[x, 0.0, 0.0] for x in xs], "r": rs}
+
+
+def soma_layout_case(rng, n, k, shape):
+    """a general tree whose root carries k extra soma-typed points around it (the multi-point soma conventions of SWC files: the
+    three-point soma = centre and two points one soma radius away on opposite sides, all with the soma radius; one- and
+    three-satellite variants; satellites further out or thinner): levels 1 and 2 are plain sums for EVERY tree"""
+    t = gen.tree_case(rng, n, shape, numbering=rng.choice(["sorted", "root0"]), coords="lattice")
+    t = dict(t, pids=list(t["pids"]), types=list(t["types"]), xyz=[list(q) for q in t["xyz"]], r=list(t["r"]))
+    c, r0 = t["xyz"][0], t["r"][0]
+    variant = rng.choice(["standard", "standard", "standard", "further", "thinner"])
+    d = r0 + (1.0 if variant == "further" else 0.0)
+    rs = r0 / 2 if variant == "thinner" else r0
+    axes = [0, 1, 2]
+    rng.shuffle(axes)
+    dirs = [(axes[0], 1), (axes[0], -1), (axes[1], 1), (axes[1], -1), (axes[2], 1)]
+    if k == 1 or rng.random() < 0.5:
+        rng.shuffle(dirs)                          # not necessarily an opposite pair
+    used = set(tuple(q) for q in t["xyz"])
+    placed = 0
+    for ax, sg in dirs:
+        if placed == k:
+            break
+        q = list(c); q[ax] += sg * d
+        if tuple(q) in used:
+            continue
+        used.add(tuple(q)); placed += 1
+        t["pids"].append(0); t["types"].append(1); t["xyz"].append(q); t["r"].append(rs)
+    t["n"] = len(t["pids"])
+    t["class"] = f"{variant}-k{placed}"
+    return t
+
+
+def subtree(pids, i):
+    kids = {}
+    for c, p in enumerate(pids):
+        kids.setdefault(p, []).append(c)
+    seen, todo = set(), [i]
+    while todo:
+        j = todo.pop()
+        if j in seen:
+            continue
+        seen.add(j); todo.extend(kids.get(j, []))
+    return seen
+
+
+def edit_history(rng, pids, k):
+    """another tree on the same nodes from which `pids` is reached by re-attaching up to k nodes one after the other (every
+    intermediate parent array is a tree): (from_pids, steps) with steps = [[node, new parent], …] in the order to apply"""
+    cur, back = list(pids), []
+    for _ in range(k):
+        cand = [i for i in range(len(cur)) if cur[i] >= 0]
+        rng.shuffle(cand)
+        for i in cand:
+            sub = subtree(cur, i)
+            others = [j for j in range(len(cur)) if j not in sub and j != cur[i]]
+            if others:
+                back.append([i, cur[i]])
+                cur[i] = rng.choice(others)
+                break
+    return cur, back[::-1]
+
+
+BEFORE_OPS = ["vol1", "vol2", "furcations", "branches", "paths", "tips", "length"]
+EDIT_VIA = ["node.pid", "ndata-item", "ndata-column"]
+
+
+def edited(rng, case, via):
+    """the case's tree reached by editing ANOTHER tree in place (nodes re-attached through the public API) after that tree, or the
+    tree it was copied from, had been asked something"""
+    fp, steps = edit_history(rng, case["tree"]["pids"], rng.choice([1, 1, 2]))
+    before = rng.sample(BEFORE_OPS, rng.choice([0, 1, 1, 2]))
+    return dict(case, **{"class": f"edited/{via}/" + case["class"].split("/")[0], "measured_before": False,
+                         "edit": {"from_pids": fp, "steps": steps, "via": via, "before": before,
+                                  "on_copy": rng.random() < 0.4}})
+
+
+def sums(t, pids=None):
+    """(sum of the node spheres, sum of the frusta of the parent-child pairs), from the case description, in float64"""
+    r = np.array(t["r"], dtype=np.float64)
+    xyz = np.array(t["xyz"], dtype=np.float64)
+    fr = 0.0
+    for i, p in enumerate(t["pids"] if pids is None else pids):
+        if p >= 0:
+            h = float(np.linalg.norm(xyz[i] - xyz[p]))
+            fr += math.pi * h / 3 * (r[i] ** 2 + r[i] * r[p] + r[p] ** 2)
+    return float((4 / 3 * np.pi * r ** 3).sum()), fr
+
+
+def key_class(cl):
+    """the class as it appears in a finding key: the geometry of the new families, not every type pattern / edit path"""
+    parts = cl.split("/")
+    if parts[0] in ("types", "edited") and len(parts) == 3:
+        return parts[0] + "/" + parts[2].split("-")[0]
+    return cl
+
+
+def num(v):
+    try:
+        v = float(v)
+    except (TypeError, ValueError):
+        return None
+    return v if math.isfinite(v) else None
+
+
 def profile_volume(t):
     """true union volume of a collinear tree: π ∫ max-profile²"""
     xs = t.get("axis") or [p[0] for p in t["xyz"]]
@@ -219,6 +375,40 @@ class TreeVol(Suite):
             for _ in range(2 if not big else 6):
                 t = gen.tree_case(rng, n, gen.pick_shape(rng, k), numbering=rng.choice(["sorted", "root0"]), coords="lattice"); k += 1
                 out.append({"class": "general/" + t["class"], "tree": t, "levels": [1, 2], "collinear": False})
+        # the type column (not mentioned by the property: every assignment is inside its quantifier) on collinear trees at the boundary of
+        # the admissible spacings — equal radii, compartments exactly one radius long (a root with two one-compartment arms of this
+        # kind is the three-point soma of SWC files) — and on trees with arbitrary radii
+        for pi, pattern in enumerate(TYPE_PATTERNS):
+            for kind, n, share in [("arms", 3, 1.0), ("arms", rng.choice([4, 5, 6]), rng.choice([1.0, 0.6])),
+                                   ("chain", rng.choice([2, 3, 4, 5]), rng.choice([1.0, 0.6]))] + ([("arms", 9, 0.8), ("chain", 12, 0.8)] if big else []):
+                t = boundary_case(rng, kind, n, share)
+                t["types"] = type_column(rng, pattern, t["pids"])
+                out.append({"class": f"types/{pattern}/{kind}-{'uniform' if share == 1.0 else 'boundary'}", "tree": t,
+                            "levels": [1, 2, 3, 4] + ([5] if kind == "chain" else []), "collinear": True})
+            t = collinear_case(rng, rng.choice(["chain", "arms"]), rng.choice([3, 4, 6]))
+            t["types"] = type_column(rng, pattern, t["pids"])
+            out.append({"class": f"types/{pattern}/{t['class']}", "tree": t, "levels": [1, 2, 3, 4], "collinear": True})
+            t = gen.tree_case(rng, rng.choice([3, 5, 9]), gen.pick_shape(rng, k), numbering=rng.choice(["sorted", "root0"]), coords="lattice"); k += 1
+            t = dict(t, types=type_column(rng, pattern, t["pids"]))
+            out.append({"class": f"types/{pattern}/general", "tree": t, "levels": [1, 2], "collinear": False})
+        # multi-point soma layouts at the root of general trees
+        for n in [1, 2, 4, 8] + ([25] if big else []):
+            for kk in [2, 3, 1][: 2 if not big else 3] + [2]:
+                t = soma_layout_case(rng, n, kk, gen.pick_shape(rng, k)); k += 1
+                out.append({"class": "soma-layout/" + t["class"], "tree": t, "levels": [1, 2], "collinear": False})
+        # trees reached by an in-place edit of the parent column (the node API, the pid array) of a tree that — itself or the tree it
+        # was copied from — had been asked something before: the volume is that of the tree as it is NOW
+        base = []
+        for n in [3, 4, 6] + ([10] if big else []):
+            for kind in ("chain", "arms"):
+                for _ in range(1 if not big else 3):
+                    base.append({"class": kind, "tree": collinear_case(rng, kind, n), "levels": [1, 2, 3, 4], "collinear": True})
+        for n in [3, 4, 7, 12] + ([30] if big else []):
+            for _ in range(1 if not big else 3):
+                t = gen.tree_case(rng, n, gen.pick_shape(rng, k), numbering=rng.choice(["sorted", "root0"]), coords="lattice"); k += 1
+                base.append({"class": "general", "tree": t, "levels": [1, 2], "collinear": False})
+        for j, c in enumerate(base):
+            out.append(edited(rng, c, EDIT_VIA[j % len(EDIT_VIA)]))
         return out
 
     def run(self, case):
@@ -226,6 +416,33 @@ class TreeVol(Suite):
 
         np.random.seed(1)
         t = gen.make_tree(case["tree"])
+        res = {}
+        ed = case.get("edit")
+        if ed:
+            t = gen.make_tree(dict(case["tree"], pids=ed["from_pids"]))
+            for op in ed["before"]:
+                if op.startswith("vol"):
+                    get_volume(t, accuracy=int(op[3:]))
+                elif op == "length":
+                    t.length()
+                else:
+                    getattr(t, "get_" + op)()
+            src = None
+            if ed["on_copy"]:
+                src, t = t, t.copy()
+            if ed["via"] == "ndata-column":
+                col = t.ndata["pid"].copy()
+                for i, p in ed["steps"]:
+                    col[i] = p
+                t.ndata["pid"] = col
+            else:
+                for i, p in ed["steps"]:
+                    if ed["via"] == "node.pid":
+                        t.node(i).pid = p
+                    else:
+                        t.ndata["pid"][i] = p
+            if src is not None:      # the tree the edited one was copied from is still the tree it was
+                res["src_vol"] = {str(a): float(get_volume(src, accuracy=a)) for a in (1, 2)}
         if case.get("measured_before", case["tree"]["n"] % 2 == 1):
             # the tree is derived (a copy whose radii and positions are then replaced, as the transforms do) from a tree that was
             # measured at every level before
@@ -236,7 +453,7 @@ class TreeVol(Suite):
             for k in ("x", "y", "z", "r"):
                 d.ndata[k] = t.ndata[k].copy()
             t = d
-        res = {"vol": {str(a): float(get_volume(t, accuracy=a)) for a in case["levels"]}}
+        res["vol"] = {str(a): float(get_volume(t, accuracy=a)) for a in case["levels"]}
         if case["collinear"]:
             res["terms"] = node_terms(case["tree"])
             res["prims"] = prim_terms(case["tree"])
@@ -278,36 +495,55 @@ class TreeVol(Suite):
 
     def oracle(self, case, res):
         t = case["tree"]
+        if not isinstance(res, dict):
+            return [("volume-malformed", f"no result: {res!r}")]
         if "exc" in res:
             return [("volume-raises", f"get_volume raised {res['exc']}: {res.get('msg')}")]
         out = []
-        r = np.array(t["r"], dtype=np.float64)
-        xyz = np.array(t["xyz"], dtype=np.float64)
-        spheres = float((4 / 3 * np.pi * r ** 3).sum())
-        fr = 0.0
-        for i, p in enumerate(t["pids"]):
-            if p >= 0:
-                h = float(np.linalg.norm(xyz[i] - xyz[p]))
-                fr += math.pi * h / 3 * (r[i] ** 2 + r[i] * r[p] + r[p] ** 2)
+        vol = res.get("vol") if isinstance(res.get("vol"), dict) else {}
+        for a in case["levels"]:
+            if num(vol.get(str(a))) is None:
+                return [("volume-malformed", f"accuracy {a} reports {vol.get(str(a))!r}, not a finite number")]
+        spheres, fr = sums(t)
         u = case.get("unit", 1.0)
         close = lambda a, b: abs(a - b) <= 3e-5 * (max(1.0, abs(b)) if u >= 1.0 else abs(b) + 1e-9 * u ** 3)
-        if "1" in res["vol"] and not close(res["vol"]["1"], spheres):
-            out.append(("level1", f"accuracy 1 reports {res['vol']['1']}, sum of node spheres is {spheres}"))
-        if "2" in res["vol"] and not close(res["vol"]["2"], spheres + fr):
-            out.append(("level2", f"accuracy 2 reports {res['vol']['2']}, spheres + frusta is {spheres + fr}"))
-        for a, v in res.get("fe", []):
-            want = res["vol"].get(str(a))
+        how = ""
+        if case.get("edit"):
+            ed = case["edit"]
+            how = (f" [tree with pids {ed['from_pids']} asked {ed['before']}, {'copied, the copy ' if ed['on_copy'] else ''}re-attached "
+                   f"{ed['steps']} via {ed['via']} -> pids {t['pids']}]")
+        if "1" in vol and not close(vol["1"], spheres):
+            out.append(("level1", f"accuracy 1 reports {vol['1']}, sum of node spheres is {spheres}{how}"))
+        if "2" in vol and not close(vol["2"], spheres + fr):
+            out.append(("level2", f"accuracy 2 reports {vol['2']}, spheres + frusta is {spheres + fr}{how}"))
+        if case.get("edit") and case["edit"]["on_copy"]:
+            # the source of the copy is a tree as well: levels 1 and 2 of ITS parent-child pairs
+            s0, f0 = sums(t, case["edit"]["from_pids"])
+            sv = res.get("src_vol") if isinstance(res.get("src_vol"), dict) else {}
+            for a, want in (("1", s0), ("2", s0 + f0)):
+                got = num(sv.get(a))
+                if got is None or not close(got, want):
+                    out.append(("level" + a, f"the tree a copy was taken from (and the COPY then edited) reports {sv.get(a)!r} at accuracy {a}, "
+                                f"its spheres{' + frusta' if a == '2' else ''} are {want}{how}"))
+        fe = res.get("fe") if isinstance(res.get("fe"), list) else []
+        for ent in fe:
+            try:
+                a, v = ent[0], float(ent[1])
+            except (TypeError, ValueError, IndexError):
+                out.append(("extract-volume", f"malformed answer {ent!r}"))
+                break
+            want = vol.get(str(a))
             # float32 result of the front end against the float64 answer of get_volume at the SAME level
-            if want is not None and abs(v - want) > 1e-5 * max(abs(want), 1e-30) + 1e-30:
-                out.append(("extract-volume", f"one extractor asked for the levels {[x for x, _ in res['fe']]} in this order answered "
+            if want is not None and not abs(v - want) <= 1e-5 * max(abs(want), 1e-30) + 1e-30:
+                out.append(("extract-volume", f"one extractor asked for the levels {[x[0] for x in fe]} in this order answered "
                             f"{v} at accuracy {a}; get_volume(tree, accuracy={a}) = {want}"))
                 break
         if case["collinear"]:
             tv = profile_volume(t)
             for a in case["levels"]:
-                if a >= 3 and abs(res["vol"][str(a)] - tv) > 2e-4 * (max(1.0, tv) if u >= 1.0 else tv):
-                    out.append((f"union-volume/{case['class']}", f"accuracy {a} reports {res['vol'][str(a)]}, true union volume {tv} "
-                                f"(x={[p[0] for p in t['xyz']]}, r={t['r']})"))
+                if a >= 3 and abs(vol[str(a)] - tv) > 2e-4 * (max(1.0, tv) if u >= 1.0 else tv):
+                    out.append((f"union-volume/{key_class(case['class'])}", f"accuracy {a} reports {vol[str(a)]}, true union volume {tv} "
+                                f"(x={[p[0] for p in t['xyz']]}, r={t['r']}, types={t['types']}){how}"))
                     break
         return out
 
